@@ -110,3 +110,52 @@ def match_known(ob, prop, known):
         if k.get('property') == prop and k.get('key') == ob.key:
             return k
     return None
+
+
+# ------------------------------------------------------------------------------ helpers the rules do not know
+# Rules that follow calls themselves (their verdict does not depend on where a piece of code lives):
+HELPER_AWARE = {'EFFECT', 'EFFECT-IR', 'ACCUM-ONCE', 'KEY-ARITH', 'ITER-INVALIDATION', 'OWN-ALIAS', 'FIELD-COVER', 'SENTINEL-EXCLUDED',
+                'PRECISION', 'TYPE', 'SLOPE-ORDER', 'INT-INTERCEPT', 'CONV-RANGE', 'TABLE-WIDTH', 'DATA-EXACT', 'BACK-GUARD', 'SELECT-RANGE'}
+
+
+def unknown_helpers(fn):
+    """functions / closures called by fn that are not part of the vocabulary the rules were written against and that Fn.term()
+    could not look through (more than one return statement, loops, try blocks): names"""
+    from ir import known_names
+    known = known_names()
+    out = []
+    u = fn.unit
+    for c in fn.calls():
+        nd = fn.n(c)
+        callee = u.functions.get(nd.get('cd')) if nd.get('cd') else None
+        if callee is None or callee.id == fn.id:
+            continue
+        if not (callee.tname.startswith('pgm::') or callee.file.endswith('cpgm.cpp')):
+            continue
+        if '(lambda)' in callee.tname:
+            a0 = fn.n(fn.strip(nd['args'][0])) if nd.get('args') else {}
+            name = a0.get('n', '')
+            if fn.tname not in known['functions'] or (fn.tname + '|' + name) in known['closures']:
+                continue
+        elif callee.tname in known['functions']:
+            continue
+        rets = [r for r in callee.returns() if callee.n(r)['ch']]
+        simple = len(rets) == 1 and callee.body and len(callee.n(callee.body).get('ch', [])) <= 3
+        if not simple:
+            out.append(callee.name if '(lambda)' not in callee.tname else 'closure `' + name + '`')
+    return sorted(set(out))
+
+
+def soften_unknown(obs):
+    """a violation reported in a function, part of whose body now lives in a helper the rule does not follow, is not a verdict:
+    the rule saw only half of the code.  It becomes undecided (exit 2), never silently a pass."""
+    for o in obs:
+        if o.status == VIOLATED and o.fn is not None and o.rule.split(':')[-1] not in HELPER_AWARE:
+            try:
+                uh = unknown_helpers(o.fn)
+            except Exception:
+                uh = []
+            if uh:
+                o.status = UNDECIDED
+                o.found = str(o.found) + f"  [not a verdict: part of this function now lives in {', '.join(uh[:3])}, which this rule does not follow]"
+    return obs
